@@ -3,6 +3,7 @@ package main
 import (
 	"context"
 	"crypto/x509"
+	"errors"
 	"encoding/hex"
 	"encoding/json"
 	"fmt"
@@ -40,6 +41,7 @@ type c26Op struct {
 	Kind    string `json:"kind"` // gen | pub | unpub | rel
 	Host    string `json:"host,omitempty"`
 	Servers string `json:"servers,omitempty"`
+	Fail    int    `json:"fail,omitempty"` // unpub / rel: the DHT Delete of route slot Fail (1..3) fails
 }
 
 func (o c26Op) String() string {
@@ -49,6 +51,9 @@ func (o c26Op) String() string {
 		return w + ".gen"
 	case "pub":
 		return fmt.Sprintf("%s.pub(%s,[%s])", w, o.Host, o.Servers)
+	}
+	if o.Fail > 0 {
+		return fmt.Sprintf("%s.%s(%s,delete-of-slot-%d-fails)", w, o.Kind, o.Host, o.Fail)
 	}
 	return fmt.Sprintf("%s.%s(%s)", w, o.Kind, o.Host)
 }
@@ -70,6 +75,9 @@ func c26AllOps() []c26Op {
 				ops = append(ops, c26Op{Who: who, Kind: "pub", Host: h, Servers: sv})
 			}
 			ops = append(ops, c26Op{Who: who, Kind: "unpub", Host: h}, c26Op{Who: who, Kind: "rel", Host: h})
+			for f := 1; f <= 3; f++ {
+				ops = append(ops, c26Op{Who: who, Kind: "unpub", Host: h, Fail: f}, c26Op{Who: who, Kind: "rel", Host: h, Fail: f})
+			}
 		}
 	}
 	return ops
@@ -78,6 +86,9 @@ func c26AllOps() []c26Op {
 // ops whose successor states are explored further (the others are checked from every
 // explored state but not expanded)
 func c26Expands(o c26Op) bool {
+	if o.Fail > 0 {
+		return false
+	}
 	if o.Kind == "pub" {
 		for _, s := range c26ExpandServers {
 			if s == o.Servers {
@@ -330,6 +341,16 @@ func (w *c26World) apply(o c26Op) (problems []string, applicable bool, success b
 
 	var err error
 	var genName string
+	if o.Fail > 0 {
+		failKey := tun.RoutingKey(host, o.Fail)
+		w.kv.delHook = func(key string) error {
+			if key == failKey {
+				return errors.New("kv: injected delete failure")
+			}
+			return nil
+		}
+		defer func() { w.kv.delHook = nil }()
+	}
 	switch o.Kind {
 	case "gen":
 		var r *protocol.GenerateHostnameResponse
@@ -413,13 +434,31 @@ func (w *c26World) apply(o c26Op) (problems []string, applicable bool, success b
 		if !samePrefix || before.custom != after.custom {
 			add("unpublish-changed-registration-or-custom-binding")
 		}
+		if success {
+			// a call that reports success has removed every route of the hostname
+			for i := 0; i < 3; i++ {
+				if after.slots[i] != "" {
+					add("unpublish-reported-success-but-left-route-slot-%d", i+1)
+				}
+			}
+		}
+		if o.Fail > 0 && success {
+			add("unpublish-reported-success-although-delete-of-slot-%d-failed", o.Fail)
+		}
 		for i := 0; i < 3; i++ {
 			if after.slots[i] != "" && after.slots[i] != before.slots[i] {
 				add("unpublish-rewrote-slot-%d", i+1)
 			}
 		}
 	case "rel":
+		if o.Fail > 0 && success {
+			add("release-reported-success-although-delete-of-slot-%d-failed", o.Fail)
+		}
 		if !success {
+			// a failed release keeps the ownership records
+			if !samePrefix || before.custom != after.custom {
+				add("failed-release-removed-registration-or-custom-binding")
+			}
 			break
 		}
 		for i := 0; i < 3; i++ {
@@ -439,6 +478,13 @@ func (w *c26World) apply(o c26Op) (problems []string, applicable bool, success b
 			}
 		}
 		delete(w.owned[o.Who], o.Host)
+	}
+	if o.Kind != "gen" && !contains(after.prefix, host) {
+		for i := 0; i < 3; i++ {
+			if after.slots[i] != "" {
+				add("route-slot-%d-stored-for-hostname-no-longer-registered-to-caller", i+1)
+			}
+		}
 	}
 	return problems, true, success
 }
